@@ -6,15 +6,18 @@ ROOT = os.path.dirname(os.path.dirname(os.path.abspath(__file__)))
 GRAPH_STREAM = dict(
     name='graph', pkg='internal/graph', files=['harness/graph/vg_graph_test.go'], test='TestVerifGraph',
     corpus='corpus/graph', new_marker='g new',
-    env=dict(quick=dict(VERIF_DIGRAPH_N=3, VERIF_OPSEQ_LEN=2, VERIF_RANDOM=400, VERIF_BIGRANDOM=400),
-             thorough=dict(VERIF_DIGRAPH_N=4, VERIF_OPSEQ_LEN=3, VERIF_RANDOM=6000, VERIF_BIGRANDOM=6000)),
+    env=dict(quick=dict(VERIF_DIGRAPH_N=3, VERIF_OPSEQ_LEN=2, VERIF_RANDOM=400, VERIF_BIGRANDOM=400, VERIF_OVERLAP=48),
+             thorough=dict(VERIF_DIGRAPH_N=4, VERIF_OPSEQ_LEN=3, VERIF_RANDOM=6000, VERIF_BIGRANDOM=6000, VERIF_OVERLAP=600)),
     # which op lines matter to which property when only the correspondence (not a monitor) breaks
     # C06: Kahn's sort reads the derived fields (Dependents, degrees): `Synced` is a hypothesis of topo_valid, so a
     # divergence of those queries (dependents, roots, leaves, node) breaks C06's tie as well
     prop_ops=dict(C05=r'^g (detect|add |addd |new|topo)', C06=r'^g (topo|addd |add |new|detect|rm|dependents|roots|leaves|node)', C19=None),
     rule='graph op sequences: corpus, every digraph on <=N nodes (deferred and immediate construction), every op '
          'sequence of length L over 3 identities with all queries after each step, random sequences over a pool of 7 '
-         '(type,key,group) identities, random 7-node DAGs/cyclic graphs; a scenario is non-trivial when it has at least one edge',
+         '(type,key,group) identities, random 7-node DAGs/cyclic graphs; overlap rounds (one goroutine asks DetectCycles/'
+         'IsAcyclic/TopologicalSort/Size while another performs one mutation of a 200-600 node chain: answers during the '
+         'overlap must hold before or after the mutation, answers afterwards must equal the reference digraph); '
+         'a scenario is non-trivial when it has at least one edge',
 )
 
 CORE_STREAM = dict(
@@ -157,6 +160,9 @@ for _p in CONTAINER_PROPS:
     PROPS[_p] = dict(streams=[CORE_STREAM, WITNESS_STREAM])
 for _p in ('C05', 'C06'):   # container-level clauses: Build's verdict and singleton creation order
     PROPS[_p]['streams'] = PROPS[_p]['streams'] + [CORE_STREAM]
+# C17 "Build takes a snapshot": the core stream builds the collections the generator registered into (three views agree,
+# nothing left behind by rejected/removed registrations, Build overlapping Add/Remove sees the registry before or after)
+PROPS['C17']['streams'] = PROPS['C17']['streams'] + [CORE_STREAM]
 for _p in ('C05', 'C06', 'C17'):
     PROPS[_p]['streams'] = PROPS[_p]['streams'] + [WITNESS_STREAM]
 # container clauses of C05: the verdict "circular" is exact, and resolution terminates on every registry that passes it
@@ -191,6 +197,10 @@ for _p, _names in CONC_CLAUSES.items():
     PROPS[_p]['assumptions'] = PROPS[_p]['assumptions'] + [
         'concurrent clause: M6 (GodiModel/Conc.lean) assumes the Go memory model at action granularity; its tie to the source '
         'is the lock-fact extractor and the schedule-forced conc stream of C09 (the -race stress stream looks for what M6 cannot express)']
+# wiring under overlap (a constructor receives its own scope's instances, its own scope and context; two overlapping
+# resolutions of a transient are two instances): monitors of the -race stress stream tagged with these ids
+for _p in ('C03', 'C04', 'C18'):
+    PROPS[_p]['streams'] = PROPS[_p]['streams'] + [CONC_STRESS_STREAM]
 
 
 def streams(prop):
